@@ -252,8 +252,9 @@ Definition all_lmem : list lmem :=
    Lhas_denorm_loss; Linfinity; Lquiet_NaN; Lsignaling_NaN; Ldenorm_min; Lis_iec559; Lis_bounded;
    Lis_modulo; Ltraps; Ltinyness_before; Lround_style].
 
-(* value of a member: bool, integer, the floating-point number m * 2^e (m odd or 0), +inf, NaN *)
-Inductive lval := LB (b : bool) | LI (z : Z) | LF (m e : Z) | LInf | LNaN.
+(* value of a member: bool, integer, the floating-point number m * 2^e (m odd or 0), +inf, a NaN
+   (signaling or quiet: [numeric.limits.members] distinguishes quiet_NaN() from signaling_NaN()) *)
+Inductive lval := LB (b : bool) | LI (z : Z) | LF (m e : Z) | LInf | LNaN (signaling : bool).
 
 (* canonical m * 2^e with m odd (or 0 0); fuel = bit length of m *)
 Fixpoint norm_f (fuel : nat) (m e : Z) : lval :=
